@@ -756,10 +756,11 @@ impl Arena {
     }
     let header = self.header_mut();
 
-    let want = header.allocated + size;
-    if want <= self.cap {
+    // computed in u64: `allocated + size` must not wrap for any requested size.
+    let want = header.allocated as u64 + size as u64;
+    if want <= self.cap as u64 {
       let offset = header.allocated;
-      header.allocated = want;
+      header.allocated = want as u32;
 
       #[cfg(feature = "tracing")]
       tracing::debug!("allocate {} bytes at offset {} from memory", size, offset);
@@ -866,9 +867,11 @@ impl Arena {
     let allocated = header.allocated;
     let aligned_offset = align_offset::<T>(allocated);
     let size = mem::size_of::<T>() as u32;
-    let want = aligned_offset + size + extra;
+    // computed in u64: the sum must not wrap for any `extra`.
+    let want = aligned_offset as u64 + size as u64 + extra as u64;
 
-    if want <= self.cap {
+    if want <= self.cap as u64 {
+      let want = want as u32;
       // break size + extra;
       let offset = header.allocated;
       header.allocated = want;
@@ -884,13 +887,20 @@ impl Arena {
     }
 
     // allocate through slow path
+    // the padded request must itself fit in a u32, otherwise no segment can serve it.
+    let Some(padded) = (Self::pad::<T>() as u32).checked_add(extra) else {
+      return Err(Error::InsufficientSpace {
+        requested: u32::MAX,
+        available: self.remaining() as u32,
+      });
+    };
     match self.freelist {
       Freelist::None => Err(Error::InsufficientSpace {
-        requested: size + extra,
+        requested: size.saturating_add(extra),
         available: self.remaining() as u32,
       }),
       Freelist::Optimistic => {
-        match self.alloc_slow_path_optimistic(Self::pad::<T>() as u32 + extra) {
+        match self.alloc_slow_path_optimistic(padded) {
           Ok(mut bytes) => {
             bytes.align_bytes_to::<T>();
             Ok(Some(bytes))
@@ -899,7 +909,7 @@ impl Arena {
         }
       }
       Freelist::Pessimistic => {
-        match self.alloc_slow_path_pessimistic(Self::pad::<T>() as u32 + extra) {
+        match self.alloc_slow_path_pessimistic(padded) {
           Ok(mut bytes) => {
             bytes.align_bytes_to::<T>();
             Ok(Some(bytes))
@@ -983,9 +993,11 @@ impl Arena {
     let allocated = header.allocated;
     let align_offset = align_offset::<T>(allocated);
     let size = t_size as u32;
-    let want = align_offset + size;
+    // computed in u64: the sum must not wrap for any `T`.
+    let want = align_offset as u64 + size as u64;
 
-    if want <= self.cap {
+    if want <= self.cap as u64 {
+      let want = want as u32;
       let offset = header.allocated;
       header.allocated = want;
       let mut allocated = Meta::new(self.ptr as _, offset, want - offset);
@@ -1005,7 +1017,7 @@ impl Arena {
     // allocate through slow path
     match self.freelist {
       Freelist::None => Err(Error::InsufficientSpace {
-        requested: want,
+        requested: size,
         available: self.remaining() as u32,
       }),
       Freelist::Optimistic => match self.alloc_slow_path_optimistic(Self::pad::<T>() as u32) {
